@@ -94,6 +94,13 @@ pub fn exec(op: &str, a: &Value) -> Option<Value> {
             let e = d.with_calendar(cal_of(a, "to")?)?;
             Ok((d, e))
         }, |(d, e)| json!({"iso": p_iso(e), "id": e.calendar().identifier(), "cmp": p_ord(d.compare_iso(e))})),
+        // the same for a date-time: `iso` at 12:34:56.789 in calendar `from`, then PlainDateTime::with_calendar(`to`)
+        "Cal.WithCalendarDT" => run(|| {
+            let d = &a["iso"];
+            let x = PlainDateTime::try_new(js::i(d, "y") as i32, js::i(d, "m") as u8, js::i(d, "d") as u8, 12, 34, 56, 789, 0, 0, cal_of(a, "from")?)?;
+            x.with_calendar(cal_of(a, "to")?)
+        }, |e| json!({"iso": {"y": int(e.iso_year() as i64), "m": int(e.iso_month() as i64), "d": int(e.iso_day() as i64)}, "id": e.calendar().identifier(),
+                      "time": [e.hour(), e.minute(), e.second(), e.millisecond()]})),
         // Calendar::from_str / from_utf8 of a spelling -> identifier(); and the identifier parsed again
         "Cal.Id" => run(|| {
             let s = chars_to_string(&a["s"]);
